@@ -9,4 +9,28 @@ CHECKS = {
   "technique": "Coq proof (induction over the input list) about an executable Gallina model + model-vs-code correspondence by vm_compute",
  },
 }
+
+CHECKS["C02"] = {
+  "text": "Machine-checked theorems (coq/props/C02.v, closed under the global context) about the executable model of Model._call/forward/"
+          "DataDispatcher for ANY family of node forward functions and any topologically ordered graph: one step yields an environment that "
+          "satisfies, for every node, new state = forward(own previous state, concatenation of the predecessors' NEW states + external input, "
+          "feedback); that system has a unique solution, so the result is independent of the valid order picked; nodes outside the model are "
+          "untouched; name-keyed inputs reach exactly the named nodes; a run is the step applied per timestep. The model is tied to the code "
+          "by running seeded histories on random DAGs on both and comparing every output and every node state inside Coq.",
+  "note": "Trusted: Coq kernel; coq/model/ModelSem.v + Kinds.v as a rendering of model.py/_base.py/graphflow.py and of the node kinds; the "
+          "execution order and fan-in order are read from the real Model and validated (is_topo) rather than predicted (C03/C17 cover them); "
+          "harness tools/props/c02.py + tools/vlib/scen.py; float64 exact on small dyadic data.",
+  "technique": "Coq proof (induction over the execution order; uniqueness of the solution of the graph equations) + model-vs-code correspondence by vm_compute",
+}
+CHECKS["C18"] = {
+  "text": "Machine-checked theorems (coq/props/C18.v) about Gallina definitions regenerated from the current text of activationsfunc.py on every run: "
+          "softmax is non-negative, sums to one, is shift-invariant, orders its outputs like its inputs for beta>0 and equals exp(beta x_k)/sum exp(beta x_i); "
+          "sigmoid (both branches), softplus, tanh, relu, identity equal their definitions; shapes are preserved; every exp argument is <= 0, every divisor in [1,n], "
+          "every log argument in [1,2] (overflow freedom on the real intermediates); the pre-fix formulas are refuted. An implementation oracle checks the float "
+          "behaviour (4 ulp vs a 60-digit decimal reference over the whole float range, softmax algebra, shapes, activation nodes).",
+  "note": "Trusted: Coq kernel and the Reals axioms; the fail-closed translator tools/vlib/py2coq_act.py (Python ast -> Gallina); np.vectorize modelled as map, arrays flattened "
+          "to lists; python decimal as reference. Rounding, subnormals and signed zeros are float/libm facts decided by the oracle only (partial).",
+  "technique": "Coq proof over R about source-translated definitions (translator tie) + exact evaluation of the translated IR vs the code + float oracle vs high-precision reference",
+}
+
 NOT_YET = {}
